@@ -1,5 +1,5 @@
 """Per-property configuration of the checks (see DESIGN.md §6)."""
-from vlib import run_verus_property, run_kani_property
+from vlib import run_verus_property, run_kani_property, run_compile_snippets
 
 PRELUDE = ["00_prelude.vrs"]
 STACK = ["10_stack.vrs"]
@@ -17,6 +17,153 @@ PUSH_ASSUME = [
     "float <-> int `as` casts are the saturating conversions of the Rust reference (vx_f64_as_i64 stand-in)",
     "std contracts listed in coverage.trusted_base (Result::and_then/or_else/cloned/unwrap_or, i64::saturating_neg/abs/checked_pow, From<T> for T, i64: From<bool>)",
 ]
+
+RNG = "all random streams (every word handed to rand is symbolic)"
+def K(name, bound, what, tier="quick", complete=False, **kw):
+    d = {"name": name, "bound": bound, "what": what, "tier": tier, "complete": complete}
+    d.update(kw)
+    return d
+
+KANI = {
+    "C10": [
+        K("c10::p_c10_two_point_vec", "genome length <= 3; " + RNG, "TwoPointXo on [Vec<T>;2], tagged genes"),
+        K("c10::p_c10_two_point_vec_tuple", "genome length <= 3; " + RNG, "TwoPointXo on (Vec<T>,Vec<T>)"),
+        K("c10::p_c10_uniform_vec", "genome length <= 3; " + RNG, "UniformXo on [Vec<T>;2]"),
+        K("c10::p_c10_two_point_bitstring", "genome length <= 3; " + RNG, "TwoPointXo on [Bitstring;2] via Crossover"),
+        K("c10::p_c10_uniform_bitstring", "genome length <= 3; " + RNG, "UniformXo on (Bitstring,Bitstring) via Crossover"),
+        K("c10::p_c10_bitstring_gene", "genome lengths <= 3 (equal or different), all bit values, index 0..=5", "Bitstring::crossover_gene"),
+        K("c10::p_c10_bitstring_segment", "genome lengths <= 3 (equal or different), all bit values, ranges start<=end<=5", "Bitstring::crossover_segment"),
+        K("c10::p_c10_two_point_vec_n5", "genome length <= 5; " + RNG, "TwoPointXo on [Vec<T>;2]", "thorough"),
+        K("c10::p_c10_uniform_vec_n5", "genome length <= 5; " + RNG, "UniformXo on [Vec<T>;2]", "thorough"),
+        K("c10::p_c10_two_point_bitstring_n5", "genome length <= 5; " + RNG, "TwoPointXo on [Bitstring;2]", "thorough"),
+        K("c10::p_c10_uniform_bitstring_n5", "genome length <= 5; " + RNG, "UniformXo on (Bitstring,Bitstring)", "thorough"),
+        K("c10::p_c10_bitstring_gene_n5", "genome lengths <= 5, all bit values, index 0..=7", "Bitstring::crossover_gene", "thorough"),
+        K("c10::p_c10_bitstring_segment_n5", "genome lengths <= 5, all bit values, ranges start<=end<=7", "Bitstring::crossover_segment", "thorough"),
+    ],
+    "C11": [
+        K("c11::p_c11_with_rate_vec", "genome length <= 3, all rates in [0,2], " + RNG, "WithRate on Vec<T: Not> with position-tagged genes"),
+        K("c11::p_c11_with_rate_bitstring", "genome length <= 3, all rates in [0,2], " + RNG, "WithRate on Bitstring (Linear path)"),
+        K("c11::p_c11_one_over_length_vec", "genome length <= 3, " + RNG, "WithOneOverLength == WithRate(1/len) on the same stream"),
+        K("c11::p_c11_one_over_length_bitstring", "genome length <= 3, " + RNG, "WithOneOverLength on Bitstring"),
+        K("c11::p_c11_umad_empty", "empty parent; rates from {0,.25,.5,.875,1}; " + RNG, "Umad::{new,new_with_empty_rate,new_without_empty} on an empty genome"),
+        K("c11::p_c11_umad_vector", "parent length 1 (array-backed Linear genome); rates from {0,.25,.5,.875,1}; " + RNG, "Umad::mutate structure"),
+        K("c11::p_c11_with_rate_vec_n5", "genome length <= 5", "WithRate on Vec<T>", "thorough"),
+        K("c11::p_c11_with_rate_bitstring_n5", "genome length <= 5", "WithRate on Bitstring", "thorough"),
+        K("c11::p_c11_umad_vector_n2", "parent length <= 2 (array-backed Linear genome)", "Umad::mutate structure", "thorough"),
+    ],
+    "C12": [
+        K("c11::p_c12_with_rate_threshold", "all words, all rates in [0,2] (loop-free apart from the 2-gene genome)", "flip <=> uniform_f32(w) < rate (constant stream)"),
+        K("c11::p_c12_umad_threshold", "all words; rates from {0,.25,.5,.875,1}; parent length 1", "UMAD coins are Bernoulli(addition_rate)/Bernoulli(deletion_rate), new genes subject to deletion"),
+        K("c11::p_c11_one_over_length_vec", "genome length <= 3, " + RNG, "rate applied is exactly 1/length"),
+        K("c10::p_c10_uniform_vec", "genome length <= 3; " + RNG, "uniform crossover: one fair word per position, every origin pattern reachable"),
+        K("c18::p_c12_bool_generator", "all words; p from {0,.25,.5,.875,1}", "BoolGenerator / random_with_probability threshold p*2^64"),
+        K("c18::p_c12_gene_generator", "all words, all close probabilities in [0,1]; n from {1,3,9}", "GeneGenerator: Close <=> uniform_f32(w) < close_probability; default 1/(n+1)"),
+    ],
+    "C06": [
+        K("c06::p_c06_best_worst", "population size <= 3, all i64 fitness values", "Best / Worst"),
+        K("c06::p_c06_random", "population size <= 3, " + RNG, "Random"),
+        K("c06::p_c06_tournament_3_1", "population 3, tournament 1, " + RNG, "Tournament"),
+        K("c06::p_c06_tournament_3_2", "population 3, tournament 2, " + RNG, "Tournament"),
+        K("c06::p_c06_tournament_3_3", "population 3, tournament 3, " + RNG, "Tournament"),
+        K("c06::p_c06_tournament_2_3", "population 2, tournament 3 (oversized)", "Tournament"),
+        K("c06::p_c06_tournament_1_1", "population 1, tournament 1", "Tournament"),
+        K("c06::p_c06_tournament_0_1", "empty population, tournament 1", "Tournament"),
+        K("c06::p_c06_lexicase_empty", "empty population, 0..=2 cases", "Lexicase"),
+        K("c06::p_c06_lexicase_missing", "2 individuals without results, 1 configured case", "Lexicase MissingTestCase"),
+        K("c06::p_c06_lexicase_single", "1 individual, 0..=2 cases", "Lexicase"),
+        K("c06::p_c06_lexicase_one_case", "2 individuals x 1 case (the most CBMC can carry), all i64 errors", "Lexicase"),
+        K("c06::p_c06_weighted", "all u32 weights; member fails on command", "Weighted"),
+        K("c06::p_c06_weighted_pair", "all u32 weights; members fail on command; " + RNG, "WeightedPair"),
+        K("c06::p_c06_dyn_weighted", "3 members, weights 0..=3; " + RNG, "DynWeighted"),
+        K("c06::p_c06_erased_and_ref", "population size <= 2", "Box<dyn DynSelector>, &S"),
+        K("c06::p_c06_best_worst_n5", "population size <= 5", "Best / Worst", "thorough"),
+        K("c06::p_c06_random_n5", "population size <= 5", "Random", "thorough"),
+        K("c06::p_c06_tournament_4_2", "population 4, tournament 2", "Tournament", "thorough"),
+        K("c06::p_c06_tournament_4_3", "population 4, tournament 3", "Tournament", "thorough"),
+        K("c06::p_c06_tournament_5_2", "population 5, tournament 2", "Tournament", "thorough"),
+    ],
+    "C07": [
+        K("c06::p_c06_best_worst", "population size <= 3, all i64 fitness values", "Best maximal / Worst minimal"),
+        K("c06::p_c06_tournament_3_1", "population 3, tournament 1, " + RNG, "size 1 = every individual reachable"),
+        K("c06::p_c06_tournament_3_2", "population 3, tournament 2, " + RNG, "winner >= k-1 others"),
+        K("c06::p_c06_tournament_ranks", "population 3 with distinct values, tournament 2, " + RNG, "second-worst can win, worst cannot"),
+        K("c06::p_c06_tournament_3_3", "population 3, tournament 3, " + RNG, "whole population = best selection"),
+        K("c06::p_c06_tournament_4_2", "population 4, tournament 2", "Tournament", "thorough"),
+        K("c06::p_c06_tournament_4_3", "population 4, tournament 3", "Tournament", "thorough"),
+        K("c06::p_c06_tournament_5_2", "population 5, tournament 2", "Tournament", "thorough"),
+        K("c06::p_c06_best_worst_n5", "population size <= 5", "Best / Worst", "thorough"),
+    ],
+    "C13": [
+        K("c13::p_c13_pair_build", "all u32 weights (loop-free, full domain)", "WeightedPair::new: overflow / weight sum", complete=True),
+        K("c13::p_c13_chain_overflow", "all u32 weights (loop-free, full domain)", "with_item_and_weight chaining incl. Result: earlier overflow is the one reported", complete=True),
+        K("c13::p_c13_pair_threshold", "all words; weights from {0,1,2,3,1000,2^31,u32::MAX-1,u32::MAX}", "member a <=> w < wa/(wa+wb)*2^64 (+-2^12 f64 rounding); zero weights never used; all-zero => ZeroWeight"),
+        K("c13::p_c13_nested_left", "all word pairs; weights from the representative set", "((A,B),C): outer coin (wa+wb)/total, inner wa/(wa+wb)"),
+        K("c13::p_c13_nested_right", "all word pairs; weights from the representative set", "(A,(B,C)): outer coin wa/total, inner wb/(wb+wc)"),
+        K("c06::p_c06_weighted", "all u32 weights", "Weighted: weight 0 => ZeroWeight, no randomness consumed"),
+        K("c06::p_c06_weighted_pair", "all u32 weights; members fail on command; " + RNG, "WeightedPair errors identify the member"),
+        K("c06::p_c06_dyn_weighted", "3 members, weights 0..=3; " + RNG, "DynWeighted: one member used, never a zero-weight one; all-zero => ZeroWeightSum"),
+    ],
+    "C14": [
+        K("c14::p_c14_then", "all inputs / words / failure positions (loop-free)", "Then", complete=True),
+        K("c14::p_c14_and", "all inputs / words / failure positions (loop-free)", "And", complete=True),
+        K("c14::p_c14_map_pair_array", "all inputs / words / failing element (loop-free)", "Map over pair and array", complete=True),
+        K("c14::p_c14_map_vec", "vector length <= 3", "Map over Vec"),
+        K("c14::p_c14_repeat", "N = 3 and N = 2, failure at every call", "RepeatWith / apply_twice"),
+        K("c14::p_c14_nested", "fixed shape two deep in every position, all failure patterns (loop-free)", "Then(And(Then,Then), Map)", complete=True),
+        K("c14::p_c14_wrappers", "all inputs / words (loop-free)", "Identity, Constant, Mutate, Recombine by value and by reference", complete=True),
+        K("c15::p_c15_scored_individuals", "all genomes / words (loop-free)", "GenomeScorer", complete=True),
+    ],
+    "C15": [
+        K("c15::p_c15_orderings", "all i64 values (loop-free, full domain) — the COMPILED orderings incl. the derived ones", "Score/Error/TestResult/TestResults/EcIndividual cmp, partial_cmp, operators", complete=True),
+        K("c15::p_c15_scored_individuals", "all genomes / words / scorers of the form 3g+k (loop-free)", "IndividualGenerator::sample, GenomeScorer::apply, EcIndividual::from", complete=True),
+        K("c15::p_c15_test_results_from_0", "0 results", "TestResults::from / from_iter"),
+        K("c15::p_c15_test_results_from_1", "1 result, |v| < 2^40", "TestResults::from / from_iter"),
+        K("c15::p_c15_test_results_from", "3 results, |v| < 2^40", "TestResults::from / from_iter", "thorough"),
+        K("c15::p_c15_test_results_from_n5", "5 results", "TestResults::from / from_iter", "thorough"),
+    ],
+    "C16": [
+        K("c16::p_c16_selectors", "population 3; 6 symbolic words", "Tournament, Random run twice from equal generator states", entropy_guard=True),
+        K("c16::p_c16_weighted", "population 2; 6 symbolic words", "WeightedPair run twice from equal generator states", entropy_guard=True),
+        K("c16::p_c16_lexicase", "2 individuals x 1 case; 6 symbolic words", "Lexicase twice", "thorough", entropy_guard=True),
+        K("c16::p_c16_variation", "genome length 2-3; 6 symbolic words", "TwoPointXo, UniformXo, WithRate twice", entropy_guard=True),
+        K("c16::p_c16_generators", "sizes 2-3; 6 symbolic words", "Bitstring::random*, OneOfCloning, collection generator, IndividualGenerator twice", entropy_guard=True),
+        K("c16::p_c16_umad", "parent length 1", "Umad twice", "thorough", entropy_guard=True),
+    ],
+    "C17": [
+        K("c17::p_c17_selector", "population 2; probe draws 0..=2 words, fails on command; 7 pointer kinds x 4 auto-trait sets", "DynSelector"),
+        K("c17::p_c17_mutator", "as above", "DynMutator"),
+        K("c17::p_c17_recombinator", "as above", "DynRecombinator"),
+        K("c17::p_c17_operator", "as above", "DynOperator"),
+        K("c17::p_c17_child_maker", "as above", "DynChildMaker"),
+        K("c17::p_c17_boxed_error", "default erased error type Box<dyn Error + Send + Sync>", "DynSelector / DynMutator", min_covers=0),
+    ],
+    "C18": [
+        K("c18::p_c18_collection", "sizes 0..=3, " + RNG, "collection::Generator (owning and borrowing), population size"),
+        K("c18::p_c18_bitstring_sizes", "size 3; p in {0,.5,1}", "Bitstring::random / random_with_probability"),
+        K("c18::p_c18_bitstring_sizes_0", "size 0", "Bitstring::random / random_with_probability", min_covers=1),
+        K("c18::p_c18_plushy_size", "size 2", "Plushy from collection::Generator<GeneGenerator>"),
+        K("c18::p_c18_one_of_cloning", "collection length 0..=3, " + RNG, "OneOfCloning"),
+        K("c18::p_c18_conversions_vec", "Vec length 0..=3", "IntoDistribution / ToDistribution for Vec (5 flavours)"),
+        K("c18::p_c18_conversions_array_slice", "arrays of 3 and 0, slices 0..=3", "IntoDistribution / ToDistribution for arrays and slices (9 flavours), ChooseCloning::new"),
+        K("c18::p_c18_macro", "3 members", "uniform_distribution_of!"),
+        K("c18::p_c18_collection_n6", "sizes 0..=6", "collection::Generator", "thorough"),
+        K("c18::p_c18_one_of_cloning_n5", "collection length 0..=5", "OneOfCloning", "thorough"),
+    ],
+    "C19": [
+        K("c19::p_c19_sizes", "all usize sizes / step limits; 4 call orders (loop-free)", "with_max_stack_size / with_<stack>_max_size / with_instruction_step_limit on the real PushState builder", complete=True),
+        K("c19::p_c19_values", "3 int, 2 bool, 1 float value; maximum 0..=3", "with_<stack>_values: first supplied on top, overflow; generated accessors"),
+        K("c19::p_c19_program", "2 program elements; maximum 0..=3", "with_program: first element executes first, overflow"),
+        K("c19::p_c19_inputs", "2 named inputs, two declaration orders", "with_<stack>_input order independence (state equality)"),
+    ],
+    "C04": [
+        K("c04::p_c04_bulk", "prior depth 0..=2, 0..=3 items, maximum depth-1..=depth+1 (also below the current size), exact-size and plain iterators", "Stack::push_many / TryExtend::try_extend"),
+        K("c04::p_c04_ops", "one symbolic operation at every depth 0..=4, maximum depth-1..=depth+1, against a reference LIFO model", "whole public Stack API"),
+        K("c04::p_c04_two_ops", "two symbolic operations from depth 2", "whole public Stack API", "thorough"),
+    ],
+}
+KANI_ASSUME = ["rand 0.9 is executed, not modelled; uniformity of its words and of its sampling algorithms (choose, choose_multiple, shuffle, Uniform, choose_weighted) is assumed",
+               "after the stated number of symbolic words a stream continues with all-ones words (accepted by every rejection loop in rand 0.9)"]
+KANI_EXPL = "Kani/CBMC on the real compiled crates with a symbolic random stream; cover! witnesses for every 'can occur' clause; counterexamples replayed on the stable toolchain by kh-replay."
 
 PROPS = {
     "C01": {
@@ -49,29 +196,9 @@ PROPS = {
         "assumptions": ["vstd's prophetic model of std::vec::IntoIter (remaining/next)",
                         "axiom_exhausted_into_iter_measure: an exhausted vec::IntoIter has termination measure 0"],
     },
-    "C10": {
-        "steps": [run_kani_property], "level": "model_checking",
-        "kani": [
-            {"name": "c10::p_c10_two_point_vec", "bound": "genome length <= 3; all random streams (4 symbolic words)", "what": "TwoPointXo on [Vec<T>;2], tagged genes"},
-            {"name": "c10::p_c10_two_point_vec_tuple", "bound": "genome length <= 3; all random streams (4 symbolic words)", "what": "TwoPointXo on (Vec<T>,Vec<T>)"},
-            {"name": "c10::p_c10_uniform_vec", "bound": "genome length <= 3; all random streams (4 symbolic words)", "what": "UniformXo on [Vec<T>;2]"},
-            {"name": "c10::p_c10_two_point_bitstring", "bound": "genome length <= 3; all random streams (4 symbolic words)", "what": "TwoPointXo on [Bitstring;2] via Crossover"},
-            {"name": "c10::p_c10_uniform_bitstring", "bound": "genome length <= 3; all random streams (4 symbolic words)", "what": "UniformXo on (Bitstring,Bitstring) via Crossover"},
-            {"name": "c10::p_c10_bitstring_gene", "bound": "genome lengths <= 3 (equal or different), all bit values, index 0..=5", "what": "Bitstring::crossover_gene"},
-            {"name": "c10::p_c10_bitstring_segment", "bound": "genome lengths <= 3 (equal or different), all bit values, ranges start<=end<=5", "what": "Bitstring::crossover_segment"},
-            {"name": "c10::p_c10_two_point_vec_n5", "tier": "thorough", "bound": "genome length <= 5; all random streams (4 symbolic words)", "what": "TwoPointXo on [Vec<T>;2], tagged genes"},
-            {"name": "c10::p_c10_uniform_vec_n5", "tier": "thorough", "bound": "genome length <= 5; all random streams (6 symbolic words)", "what": "UniformXo on [Vec<T>;2]"},
-            {"name": "c10::p_c10_two_point_bitstring_n5", "tier": "thorough", "bound": "genome length <= 5; all random streams (4 symbolic words)", "what": "TwoPointXo on [Bitstring;2]"},
-            {"name": "c10::p_c10_uniform_bitstring_n5", "tier": "thorough", "bound": "genome length <= 5; all random streams (6 symbolic words)", "what": "UniformXo on (Bitstring,Bitstring)"},
-            {"name": "c10::p_c10_bitstring_gene_n5", "tier": "thorough", "bound": "genome lengths <= 5, all bit values, index 0..=7", "what": "Bitstring::crossover_gene"},
-            {"name": "c10::p_c10_bitstring_segment_n5", "tier": "thorough", "bound": "genome lengths <= 5, all bit values, ranges start<=end<=7", "what": "Bitstring::crossover_segment"},
-        ],
-        "explanation": "Kani/CBMC on the real compiled crates with a symbolic random stream (every word handed to rand is unconstrained).",
-        "assumptions": ["rand 0.9 is executed, not modelled; uniformity of its words is assumed"],
-    },
     "C04": {
         "templates": PRELUDE + STD + STACK + MAIN, "extern": True,
-        "steps": [run_verus_property],
+        "steps": [run_verus_property], "kani": KANI["C04"],
         "level": "proof",
         "explanation": "Total functional contracts on the real bodies of Stack<T>::{set_max_stack_size,max_stack_size,size,is_empty,"
                        "is_full,top,top2,top3,pop,pop2,pop3,discard,push} (generic T, unbounded length, every capacity); the history "
@@ -80,3 +207,19 @@ PROPS = {
                         "std::any::type_name returns some &'static str"],
     },
 }
+
+for _pid in ("C06", "C07", "C10", "C11", "C12", "C13", "C14", "C15", "C16", "C17", "C18"):
+    PROPS[_pid] = {"steps": [run_kani_property], "level": "model_checking", "kani": KANI[_pid], "explanation": KANI_EXPL, "assumptions": KANI_ASSUME}
+
+PROPS["C19"] = {"steps": [run_compile_snippets, run_kani_property], "snippets": "c19", "level": "model_checking", "kani": KANI["C19"],
+                "explanation": "compile-time part: one snippet per illegal / legal builder call sequence compiled alone against the real crate (rustc's trait solver decides the "
+                               "type-state preconditions, statically and for all values); run-time part: Kani on the real generated PushState builder.",
+                "assumptions": KANI_ASSUME + ["std::hash::RandomState::new is stubbed (zero keys) in the builder harnesses: HashMap iteration order is never observed by the builder"]}
+
+# C15: Verus (generic payload T) + the complete Kani harnesses at T = i64
+PROPS["C15"] = {"templates": PRELUDE + ["80_ec_order.vrs"] + MAIN, "expand": ["ec-core"], "extern": True, "steps": [run_verus_property, run_kani_property], "level": "proof",
+                "kani": KANI["C15"],
+                "explanation": "Verus: the real (hand-written and derived) cmp / partial_cmp / eq bodies of Score, Error, TestResult, TestResults and EcIndividual are proved against "
+                               "spec functions stated over the payload's own order (generic T), with lemmas that lawfulness is inherited; Kani: the compiled orderings at T = i64 "
+                               "(complete) and the aggregation / scoring functions.",
+                "assumptions": KANI_ASSUME + ["vstd's PartialEqSpec / PartialOrdSpec / OrdSpec describe the payload's order", "Ordering::reverse contract (assumed)"]}
